@@ -66,16 +66,18 @@ theorem C06_session_panic_counterexample :
 
 /-! ## Clause 2: never stops making progress -/
 
-/-- Every `bmp_read` on a non-empty script consumes at least one scripted item, and on the empty
-    script (peer closed) it returns `UnexpectedEof`. -/
+/-- Every `bmp_read` that returns at all (i.e. is not left waiting on a silent, open connection)
+    consumes at least one scripted item of a non-empty script, and on the empty script (peer
+    closed) it returns `UnexpectedEof`. -/
 theorem C06_frame_progress (v : Variant) (valid : List Nat → Verdict) (s : Src) :
-    (s ≠ [] → (readFrame v valid s).2.length < s.length) ∧
+    (s ≠ [] → (readFrame v valid s).1 ≠ .pending → (readFrame v valid s).2.length < s.length) ∧
     (s = [] → readFrame v valid s = (.ioErr .unexpectedEof, [])) :=
   ⟨readFrame_progress v valid s, fun h => h ▸ readFrame_nil v valid⟩
 
 /-- The read loop ends on every finite script, for every variant, parser and handler: with
     `length + 1` iterations of fuel it never runs out (so the number of iterations is bounded by
-    the number of scripted items + 1, and the loop is left through one of its four real exits).
+    the number of scripted items + 1, and the loop is left through one of its real exits or is
+    waiting for bytes on a connection the script leaves open and silent — never spinning).
     The extracted `is_fatal` table enters only through `isFatal .unexpectedEof = true`; if the
     source ever makes end-of-input non-fatal this obligation breaks (and the real loop would spin). -/
 theorem C06_progress {σ Out : Type} (v : Variant) (h : Handler σ Out)
